@@ -3,6 +3,7 @@
 A1  every operator whose exact result can leave the type raises Overflow (incl. unary minus and signed division)
 A2  casts are silent and width-driven; extension fills exactly the gap it opened and uses the source type's signedness
 A3  each operator is lowered by its own arithmetic circuit; rewrites into other operators only where listed / guarded
+A5  a negative literal factor must negate the operand before summing: -(x + .. + x) panics for products equal to the minimum value
 A4  the constant-multiplication rewrite splits the literal into magnitude and sign: every rewritten result is returned on one
     edge of a test of that sign (a fast path that looks at the magnitude only drops the sign)
 """
@@ -296,5 +297,37 @@ def rule_a4(ctx):
     return res
 
 
+def rule_a5(ctx):
+    """x * (-n) rewritten as -(x + ... + x) is not exact: the sum overflows when the product is exactly the minimum value."""
+    res = RuleResult("A5", "a negative literal factor negates the operand before summing (negating the sum is inexact at the minimum value)")
+    f, body = _body(ctx)
+    succ = body.pruned_succ({INNER: "Op", OP0: "Mul"})
+    region = body.reachable([0], succ=succ)
+    negs = []
+    for b in sorted(region):
+        for st in body.blocks[b]["stmts"]:
+            if st["k"] == "assign" and st["rv"]["k"] == "aggregate" and st["rv"].get("adt") == "ast::ExprEnum" and st["rv"].get("variant") == "UnaryOp":
+                negs.append((b, st))
+    if not negs:
+        res.ok({"verdict": "the constant-multiplication rewrite synthesises no negation"})
+        return res
+    for b, st in negs:
+        # the negated operand: a synthesised Op(Add, ..) chain, or the original operand of the product?
+        operand = st["rv"]["ops"][-1]
+        synth_add = False
+        for (r, p) in body.deep_sources(operand, 4):
+            if r[0] == "agg":
+                a = body.blocks[r[1]]["stmts"][r[2]]["rv"]
+                if a.get("adt") == "ast::ExprEnum" and a.get("variant") == "Op":
+                    synth_add = True
+        if synth_add:
+            res.bad(Finding("A5", f["id"], "negation of the synthesised sum",
+                            "x * (-n) is lowered as -(x + ... + x): for x * n == 2^(bits-1) (e.g. 64i8 * -2i8 = -128) the sum overflows although the product is representable - a panic for a representable result",
+                            st["sp"]))
+        else:
+            res.ok({"site": "line %d" % st["sp"][1], "verdict": "the original operand is negated, then summed"})
+    return res
+
+
 def run(ctx):
-    return ctx.run_rules([rule_a1, rule_a2, rule_a3, rule_a4])
+    return ctx.run_rules([rule_a1, rule_a2, rule_a3, rule_a4, rule_a5])
